@@ -364,7 +364,8 @@ class Exec(HeapMixin, SpecEvalMixin, ExprMixin, StmtMixin, CallMixin):
                     ks, dom, vals = self._dict_keys(item[1])
                     for key in [dom] + [v[0] for v in vals]:
                         if permitted.get(key, []) is not None:
-                            permitted.setdefault(key, []).append(item[1].t)
+                            permitted.setdefault(key, []).append(
+                                item[1].t if item[3] is None else Ite(item[3], item[1].t, I(0)))
         o = None
         goals = []
         for key, final in fin.heap.items():
